@@ -11,7 +11,7 @@ func init() { Registry["C11"] = c11 }
 
 func c11(e *Env) {
 	r := e.R
-	r.Rule("every type × canonical values (as C01, incl. non-empty lists, long prefixed texts, every registered union member at least once) × EVERY cut position k in 0..len-1 of the valid image (images longer than 4 KiB: every token boundary ±1 plus 256 random offsets). distinct_nontrivial = distinct (image hash) with at least one cut")
+	r.Rule("every type × canonical values (as C01, incl. non-empty lists, long prefixed texts, every registered union member at least once) × EVERY cut position k in 0..len-1 of the valid image (images longer than 4 KiB: token boundaries ±1 — all of them up to a budget of 16 MB of decoded bytes per image, evenly thinned beyond — plus 256 random offsets). distinct_nontrivial = distinct (image hash) with at least one cut")
 	r.Explain("Oracle: Decode(image[:k]) into a fresh receiver returns a non-nil error and does not panic. Soundness: with C07 (exact consumption) a decoder that accepted image[:k] would have consumed at most k < len bytes on the full image too, so a correct tree cannot accept a strict prefix; types whose image is empty contribute no cuts.")
 	types := e.Types()
 	n := e.N(40, 600)
@@ -49,9 +49,15 @@ func c11(e *Env) {
 					}
 				}
 				if _, toks, err := e.C.EncodeTok(t, val.Clone(v)); err == nil {
+					// every decode of a long prefix costs time proportional to it: spend at most ~16 MB of
+					// decoded bytes on the token boundaries of one image
+					budget := 16 << 20 / len(w)
+					if budget < 64 {
+						budget = 64
+					}
 					step := 1
-					if len(toks) > 20000 {
-						step = len(toks) / 20000
+					if len(toks) > budget {
+						step = len(toks) / budget
 					}
 					for ti := 0; ti < len(toks); ti += step {
 						add(toks[ti].Off - 1)
@@ -59,7 +65,11 @@ func c11(e *Env) {
 						add(toks[ti].Off + 1)
 					}
 				}
-				for k := 0; k < 256; k++ {
+				nr := 256
+				if len(w) > 64<<10 {
+					nr = 32
+				}
+				for k := 0; k < nr; k++ {
 					add(g.R.Intn(len(w)))
 				}
 				add(len(w) - 1)
